@@ -770,19 +770,27 @@ def mc_run(c, prop, name, expect=(), oracle=False, timeout=1500, **kw):
     return r
 
 
-def gen_replay(c, prop, binp, name, policy=None, attach="vec", late=1, max_hist=None, timeout=2400, **kw):
+def gen_replay(c, prop, binp, name, policy=None, attach="vec", late=1, max_hist=None, timeout=2400, check=None, **kw):
     """generation run (one history per distinct state) -> replay on the real path set -> P-monitors + conformance"""
     import os
     kw = dict(kw)
     kw["gen"] = True
-    kw["invariants"] = []
+    # check = list of invariants: the generation run is at the same time the exhaustive design-level run
+    kw["invariants"] = list(check) if check else []
     if policy is None:
         policy = "acl" if kw["u"] == "A" else "none"
     rejected = rejected_variants(policy) if kw["u"] == "A" else []
     if kw.get("bad_set") and not rejected:
         raise ValueError("bad_set needs a policy set that rejects some object variant")
     p = _cfgfile(c, name + ".cfg", mc_cfg(late=late, policy=policy, **kw))
-    r = c.tlc(SD, "MC_PathSet", cfg=p, timeout=timeout, coverage=False)
+    r = c.tlc(SD, "MC_PathSet", cfg=p, timeout=timeout, coverage=bool(check), expect_violation=bool(check))
+    if check:
+        check_universe_printed(c, r, kw["u"])
+        for inv in r.violated:
+            c.violation("spec:%s" % inv, "design-level: invariant %s violated on MC_PathSet (%s); see %s" % (inv, name, r.out_path),
+                        {"tlc_out": r.out_path, "cfg": p})
+        if r.ok:
+            c.require_coverage(r, [a for a in ACTIONS if not (a in ("MCReport", "MCIngest") and not kw.get("report_set", (1,)))])
     hs = c.printed_json(r, "REPLAY")
     if not hs:
         c.fail_tool("generation run %s printed no histories" % name)
